@@ -401,7 +401,7 @@ func genPeerOn(rt *rapid.T, nm *hx.NodeMachine, cfg genCfg, parent int) hx.NOp {
 	}
 	if len(nm.Pool) > 0 && rapid.IntRange(0, inclOdds).Draw(rt, "inclpool") == 0 {
 		// now and then the first included pending transaction is carried with an altered body under its own id
-		if rapid.IntRange(0, 5).Draw(rt, "poolmut") == 0 {
+		if rapid.IntRange(0, 3).Draw(rt, "poolmut") == 0 {
 			op.PoolMut = true
 		}
 		k := rapid.IntRange(1, len(nm.Pool)).Draw(rt, "npool")
